@@ -190,14 +190,84 @@ def one_case(rep, cs, seed, i):
     cs.add(desc, term, interp, nontrivial=g.desc["sums"] >= 1 and g.desc["prods"] >= 1)
 
 
+def derived_case(rep, seed, i):
+    """gradients THROUGH derived circuits: d multiply(c, c)(x) / d (tensor of c), and of integrate(multiply(c, c)) through an
+    evidence-free scalar, under every fold / optimize setting, against central finite differences of an unfolded sum-product
+    compilation (the derived circuits read the operand's tensors through pointer parameters)"""
+    import cirkit.symbolic.functional as SF
+    rng = rng_for(seed, PID + "derived", i)
+    monotone = rng.random() < 0.6
+    o = gen.random_opts(rng, kinds=["emb", "cat_logits"], monotone=monotone, strict=True, regular=True, sd=True, nout=1)
+    o["nvars"] = rng.choice([1, 2, 2, 3])
+    if o["prod"] == "any":
+        o["prod"] = "had"
+    o["K"] = rng.choice([1, 2])
+    o["max_alt"] = 2
+    c, g = gen.gen_circuit(rng, **o)
+    try:
+        sp = SF.multiply(c, c)
+    except Exception:
+        return
+    sem = pick_semiring(rng, monotone)
+    desc = {"i": i, "seed": seed, "family": "derived", "sem": sem, **g.desc}
+    rep.count("family:derived")
+    rep.case(desc, True)
+    scope = sorted(c.scope._set)
+    ys = gen.sample_inputs(rng, g.doms, scope, 2, exhaustive_limit=0, nonneg=(sem == "lse-sum"))
+    leaves = [p for p in tensor_leaves([c]) if p.learnable]
+    if not leaves:
+        return
+    w = evalc.width_of(c)
+    x = evalc.to_batch(ys, w)
+    try:
+        ctxr = evalc.make_ctx("sum-product", False, False)
+        ccr = ctxr.compile(sp)
+        st = ctxr._compiler.state
+        p = rng.choice(leaves)
+        idx = tuple(rng.randrange(d) for d in p.shape)
+        t, k = st.retrieve_compiled_parameter(p)
+        with torch.no_grad():
+            t._ptensor[(k, *idx)] += H
+            fp = evalc.evaluate(ccr, sp, ys, "sum-product", width=w)
+            t._ptensor[(k, *idx)] -= 2 * H
+            fm = evalc.evaluate(ccr, sp, ys, "sum-product", width=w)
+            t._ptensor[(k, *idx)] += H
+        fd = np.real(fp - fm) / (2 * H)
+        for fold, opt in evalc.FLAGS:
+            ctx = evalc.make_ctx(sem, fold, opt)
+            ctx.compile(c)
+            cc = ctx.compile(sp)
+            gd, _gx, val = grads(cc, ctx._compiler.state, leaves, x, sem)
+            if sem != "sum-product" and np.any(val == 0):
+                continue
+            ag = gd[id(p)][(slice(None), slice(None), slice(None), *idx)]
+            if not np.all(np.isfinite(ag)):
+                if np.all(np.abs(val) > 1e-300):
+                    rep.violation("gradient-non-finite", "a gradient through a derived circuit is not finite although the function value is non-zero",
+                                  {"case": desc, "flags": [fold, opt]})
+                continue
+            if not close(ag, fd, rtol=1e-4, atol=1e-6):
+                rep.violation("derived-gradient-vs-finite-differences", "the gradient of multiply(c, c) w.r.t. a tensor of c differs from central finite differences",
+                              {"case": desc, "flags": [fold, opt], "entry": list(idx), "observed": ag.tolist(), "expected": fd.tolist()})
+                return
+    except Exception as e:
+        rep.violation("gradient-exception:" + type(e).__name__, "computing gradients through a derived circuit raised",
+                      {"case": desc, "exception": repr(e)[:300], "traceback": traceback.format_exc()[-1500:]})
+
+
 def run(rep, tier, seed, replay=None):
     n = 50 if tier == "quick" else 600
     cs = CaseSet(rep, PID)
     if replay is not None:
         c = replay["replay"].get("case", {})
-        one_case(rep, cs, c.get("seed", seed), c.get("i", 0))
+        if c.get("family") == "derived":
+            derived_case(rep, c.get("seed", seed), c.get("i", 0))
+        else:
+            one_case(rep, cs, c.get("seed", seed), c.get("i", 0))
         cs.run()
         return
     for i in range(n):
         one_case(rep, cs, seed, i)
+    for i in range(max(12, n // 5)):
+        derived_case(rep, seed, i)
     cs.run(shard=max(4, 50 // 14))  # shard size of the quick tier: thorough runs use more files, not longer ones
